@@ -1,0 +1,5 @@
+//go:build !verif
+
+package tq
+
+func verifEv(ev, oid string, n int) {}
